@@ -250,6 +250,9 @@ class Run:
         return path
 
     def violation(self, obj, no_input=False):
+        if not no_input and 'HARNESS-UNAVAILABLE' in json.dumps(obj, default=str):
+            # the in-process harness does not build against this tree: this is not an input on which the implementation fails
+            obj = dict(obj, kind='tie-not-evaluable', was=obj.get('kind')); no_input = True
         obj = dict(obj, property=self.prop, seed=self.seed, tier=self.tier)
         path = self.replay_path(obj)
         self.violations.append((path, no_input))
